@@ -370,7 +370,7 @@ def jobs(tier):
             J.append(("job_add", dict(mode=mode, rep="ord", unit=unit, nlo=-lim, nhi=lim)))
         J.append(("job_add", dict(mode=mode, rep="ord", unit="seconds", nlo=-90000, nhi=90000, as_float=True)))
         # calendar dates: one path per day walked -> split by month
-        dlim = 400 if th else 40
+        dlim = 120 if th else 40
         if greg or mode == "360day" or th:
             for m in range(1, 13):
                 J.append(("job_add", dict(mode=mode, rep="cal", unit="days", nlo=-dlim, nhi=dlim,
@@ -415,7 +415,7 @@ def jobs(tier):
                 J.append(("job_add_multi", dict(mode=mode, rep="cal", lim=lim, ranges={"M": (m, m)})))
             if th and greg:
                 # mod-7 atoms make z3 slow here: pin the year residue (year type)
-                for res in (0, 1, 3, 4, 99, 100, 101, 104, 199, 200, 203, 204, 296, 299, 300, 304, 396, 399):
+                for res in (0, 3, 4, 99, 100, 104, 203, 300, 399):
                     for w in ((1, 1), (2, 51), (52, 53)):
                         J.append(("job_add_multi", dict(mode=mode, rep="week", lim=lim, ranges={"W": w},
                                                         pins=C.residue_pins(res))))
@@ -446,7 +446,8 @@ INFO = {
                                    "hours +-60, minutes +-3000, seconds +-90000, days +-40 on ordinal dates in all modes; calendar dates of Jan, Feb, Dec and week dates "
                                    "of weeks 1, 52, 53 with hours / minutes in gregorian (thorough: every date, representation and unit in all modes)",
                   "multi-unit": "gregorian: days +-1, hours +-25, minutes +-61, seconds +-61 together (ordinal: every day; calendar: Jan, Feb, Mar, Dec; week dates: thorough tier only)"},
-        "thorough": {"calendar": "days +-400 from every start date in all 4 modes", "week": "all modes as gregorian"}},
+        "thorough": {"calendar": "days +-120 from every start date in all 4 modes", "week": "all modes as gregorian; multi-unit on week dates with 9 year residues",
+                     "decimal forms": "six fraction/form combinations on every date, representation and unit, all modes"}},
     "outside": ["fractional seconds; decimal hour/minute forms with fractions other than the dyadic ones listed (the decimal forms are "
                 "decided in exact rational arithmetic - SymRatio proxies - which is what the library's float arithmetic equals up to "
                 "rounding; 'within a microsecond' is then checked by the concrete replay with that tolerance)",
